@@ -601,11 +601,11 @@ def fam_single_op(rng, kind=None):
         hh = max(h, (kk[0] - 1) * d[0] + 2)
         ww = max(w, (kk[1] - 1) * d[1] + 2)
         x = _inp(net, rng, [1, hh, ww, c], dt)
-        pad = rng.choice(["SAME", "VALID"])
+        pad_mode = rng.choice(["SAME", "VALID"])
         if kind == "conv_dil":
-            y = conv2d(net, rng, x, rng.choice([1, 4, 8, 16]), kk, (1, 1), d, pad, rng.choice(["NONE", "RELU"]))
+            y = conv2d(net, rng, x, rng.choice([1, 4, 8, 16]), kk, (1, 1), d, pad_mode, rng.choice(["NONE", "RELU"]))
         else:
-            y = depthwise(net, rng, x, kk, (1, 1), d, pad)
+            y = depthwise(net, rng, x, kk, (1, 1), d, pad_mode)
     elif kind == "avgpool_s4":
         k_ = rng.choice([4, 4, 5, 8])
         hh, ww = k_ * rng.randrange(1, 4), k_ * rng.randrange(1, 4)
